@@ -41,6 +41,7 @@ NAMES = ["a", "b", "c", "d", "e"]
 
 
 _reported = {}
+_SE = [0]           # number of Series built so far (chooses the index style of the next one)
 
 
 def report(ctx, signature=None, **kw):
@@ -73,7 +74,14 @@ class Inp:
         if k == "a1":
             return np.array(v, dtype=dt)
         if k == "se":
-            return pd.Series(v, dtype=dt)
+            # a Series arrives with whatever index its origin left on it: default RangeIndex, the row labels of a slice of a longer
+            # series (changing from call to call), a DatetimeIndex, or the column names of a DataFrame row; only the values count
+            _SE[0] += 1
+            n, st = len(v), _SE[0] % 4
+            idx = (None if st == 0 else list(range(100 + _SE[0], 100 + _SE[0] + n)) if st == 1
+                   else pd.date_range("2020-01-01", periods=n, freq="D") + pd.Timedelta(days=_SE[0]) if st == 2
+                   else ["f%d" % j for j in range(n)])
+            return pd.Series(v, dtype=dt, index=idx)
         m = np.array(v, dtype=dt).reshape(self.r, self.c)
         if k == "ne":
             return m.tolist()
